@@ -6,6 +6,7 @@ package main
 
 import (
 	"bytes"
+	"encoding/hex"
 	"errors"
 	"fmt"
 	"sort"
@@ -133,11 +134,75 @@ func witAll(t *transaction.Transaction) string {
 	return witID(&all)
 }
 
-var checkSigID = []byte{0x56, 0xe7, 0xb3, 0x27} // System.Crypto.CheckSig
+var (
+	checkSigID      = []byte{0x56, 0xe7, 0xb3, 0x27} // System.Crypto.CheckSig
+	checkMultisigID = []byte{0x9e, 0xd0, 0xdc, 0x3a} // System.Crypto.CheckMultisig
+)
 
-// witnessFacts judges witness w of signer acc on transaction t: the token for the op line.
+// modelOpcodes: the script consists of the opcodes the price interpreter of the Lean model (Model/Fees.lean)
+// knows: integer / data pushes and the two signature syscalls. (A truncated operand is fine: both sides fault.)
+func modelOpcodes(s []byte) bool {
+	for i := 0; i < len(s); {
+		op := opcode.Opcode(s[i])
+		i++
+		switch {
+		case op <= opcode.PUSHINT256:
+			i += 1 << op
+		case op == opcode.PUSHDATA1:
+			if i >= len(s) {
+				return true
+			}
+			i += 1 + int(s[i])
+		case op == opcode.PUSHDATA2:
+			if i+1 >= len(s) {
+				return true
+			}
+			i += 2 + int(s[i]) + int(s[i+1])<<8
+		case op == opcode.PUSHDATA4:
+			return false
+		case op >= opcode.PUSHM1 && op <= opcode.PUSH16:
+		case op == opcode.SYSCALL:
+			if i+4 > len(s) {
+				return true
+			}
+			if id := s[i : i+4]; !bytes.Equal(id, checkSigID) && !bytes.Equal(id, checkMultisigID) {
+				return false
+			}
+			i += 4
+		default:
+			return false
+		}
+	}
+	return true
+}
+
+// pushes lists the operands of the PUSHDATA1 instructions of a script that have the given length.
+func pushes(s []byte, n int) [][]byte {
+	var out [][]byte
+	for i := 0; i < len(s); {
+		op := opcode.Opcode(s[i])
+		i++
+		switch {
+		case op <= opcode.PUSHINT256:
+			i += 1 << op
+		case op == opcode.PUSHDATA1 && i < len(s):
+			l := int(s[i])
+			if i+1+l <= len(s) && l == n {
+				out = append(out, s[i+1:i+1+l])
+			}
+			i += 1 + l
+		case op == opcode.SYSCALL:
+			i += 4
+		}
+	}
+	return out
+}
+
+// witnessFacts describes witness w of signer acc on transaction t for the op line:
 //
-//	s<hashOk><native><scriptsOk><result>.<cost>   non-empty verification script of a shape the harness can judge
+//	b<hashOk>.<inv hex|->.<ver hex>.<pairs hex|->   scripts made of the opcodes the model's interpreter knows: the
+//	     model RUNS them (result and GAS); pairs = the (public key ‖ signature) pairs, 97 bytes each, among the
+//	     33-byte and 64-byte pushes of the two scripts that verify for t (real ECDSA, done here)
 //	m                                              empty verification script (no contract is deployed by the harness)
 //	x                                              anything else: taken as failing
 func (st *state) witnessFacts(t *transaction.Transaction, acc util.Uint160, w *transaction.Witness) string {
@@ -145,53 +210,29 @@ func (st *state) witnessFacts(t *transaction.Transaction, acc util.Uint160, w *t
 	if len(ver) == 0 {
 		return "m"
 	}
-	hashOk := hash.Hash160(ver) == acc
-	tok := func(res bool, cost int64) string {
-		return fmt.Sprintf("s%d0%d%d.%d", b01(hashOk), 1, b01(res), cost)
+	if !modelOpcodes(inv) || !modelOpcodes(ver) {
+		return "x"
 	}
-	// single signature: PUSHDATA1 33 <key> SYSCALL CheckSig / PUSHDATA1 64 <sig>
-	if len(ver) == 40 && ver[0] == byte(opcode.PUSHDATA1) && ver[1] == 33 && ver[35] == byte(opcode.SYSCALL) && bytes.Equal(ver[36:], checkSigID) {
-		cost, _ := fee.Calculate(baseExecFee, ver)
-		if len(inv) != 66 || inv[0] != byte(opcode.PUSHDATA1) || inv[1] != 64 {
-			if len(inv) == 0 {
-				// nothing pushed: CheckSig faults on the empty stack (before its price is the limit's concern)
-				return fmt.Sprintf("s%d010.0", b01(hashOk))
-			}
-			return "x"
-		}
-		pub, err := keys.NewPublicKeyFromBytes(ver[2:35], nil)
+	var pairs []byte
+	for _, k := range pushes(ver, 33) {
+		pub, err := keys.NewPublicKeyFromBytes(k, nil)
 		if err != nil {
-			return "x"
-		}
-		return tok(pub.VerifyHashable(inv[2:], uint32(magic), t), cost)
-	}
-	// the m-of-n scripts of the harness' validator / committee sets
-	for _, v := range []*valset{singleVals, multiVals, multiCommittee} {
-		if !bytes.Equal(ver, v.script) {
 			continue
 		}
-		cost, _ := fee.Calculate(baseExecFee, ver)
-		if len(inv) != v.m*66 {
-			return "x"
-		}
-		ki, ok := 0, true
-		for i := 0; i < v.m && ok; i++ {
-			p := inv[i*66 : (i+1)*66]
-			if p[0] != byte(opcode.PUSHDATA1) || p[1] != 64 {
-				return "x"
-			}
-			ok = false
-			for ; ki < len(v.pubs); ki++ {
-				if v.pubs[ki].VerifyHashable(p[2:], uint32(magic), t) {
-					ok = true
-					ki++
-					break
-				}
+		for _, sg := range pushes(inv, 64) {
+			if pub.VerifyHashable(sg, uint32(magic), t) {
+				pairs = append(pairs, k...)
+				pairs = append(pairs, sg...)
 			}
 		}
-		return tok(ok, cost)
 	}
-	return "x"
+	hexOr := func(b []byte) string {
+		if len(b) == 0 {
+			return "-"
+		}
+		return hex.EncodeToString(b)
+	}
+	return fmt.Sprintf("b%d.%s.%s.%s", b01(hash.Hash160(ver) == acc), hexOr(inv), hexOr(ver), hexOr(pairs))
 }
 
 // txToken is the description of a received transaction for the op line:
@@ -248,8 +289,8 @@ func (st *state) chainLine() string {
 	if st.spec.k.multi {
 		nfee = notaryFeePerKey
 	}
-	return fmt.Sprintf("chain nvals=%d h=%d inc=%d mbsf=%d fpb=%d mvg=%d mtb=%d p2p=%d rsv=0 nta=1 committee=%s oracle=- notary=notary attrfee=%d:%d,%d:%d blocked=%s",
-		st.v.nvals, st.h, cfgMaxVUBInc, int64(cfgMaxBlockSysFee), st.fpb, cfgMaxVerGas, st.mtb(), b01(st.spec.k.multi),
+	return fmt.Sprintf("chain base=%d gorgon=1 nvals=%d h=%d inc=%d mbsf=%d fpb=%d mvg=%d mtb=%d p2p=%d rsv=0 nta=1 committee=%s oracle=- notary=notary attrfee=%d:%d,%d:%d blocked=%s",
+		baseExecFee, st.v.nvals, st.h, cfgMaxVUBInc, int64(cfgMaxBlockSysFee), st.fpb, cfgMaxVerGas, st.mtb(), b01(st.spec.k.multi),
 		st.acctName(st.spec.k.committee().addr), int(transaction.ConflictsT), st.conflFee, int(transaction.NotaryAssistedT), nfee, b)
 }
 
